@@ -126,7 +126,15 @@ func (c UnregisteredCaveat) MarshalMsgpack() ([]byte, error) {
 	return c.RawMsgpack, nil
 }
 
-func (c *UnregisteredCaveat) UnmarshalMsgpack(data []byte) error {
+func (c *UnregisteredCaveat) UnmarshalMsgpack(data []byte) (err error) {
+	// decoding an untyped map whose key is itself an array or map panics
+	// ("hash of unhashable type"); report it as a decode error instead
+	defer func() {
+		if r := recover(); r != nil {
+			err = fmt.Errorf("unregistered caveat: bad body: %v", r)
+		}
+	}()
+
 	dec := msgpack.GetDecoder()
 	defer msgpack.PutDecoder(dec)
 
